@@ -132,6 +132,12 @@ func runC11(ctx *report.Ctx) {
 func c11RestoreScripts() []*yc.Program {
 	names := []string{"N0", "N1", "N2"}
 	return []*yc.Program{
+		// a jump that fails inside a never tracked node (the dialogue stays there), between the save point and the restore
+		{Nodes: []*yc.Node{
+			{Title: "N0", Body: []*yc.Stmt{statusLine(names), yc.Jump("N1")}},
+			{Title: "N1", Tracking: "never", Body: []*yc.Stmt{statusLine(names), yc.Jump("nowhere"), statusLine(names), yc.Options(&yc.Option{Line: yc.TextLine("back"), Body: []*yc.Stmt{yc.Jump("N0")}}, &yc.Option{Line: yc.TextLine("on"), Body: []*yc.Stmt{yc.JumpE(yc.EString("void")), yc.Jump("N2")}})}},
+			{Title: "N2", Body: []*yc.Stmt{statusLine(names), yc.Jump("N0")}},
+		}},
 		{Nodes: []*yc.Node{
 			{Title: "N0", Body: []*yc.Stmt{statusLine(names), yc.Jump("N1")}},
 			{Title: "N1", Tracking: "never", Body: []*yc.Stmt{statusLine(names), yc.Options(&yc.Option{Line: yc.TextLine("back"), Body: []*yc.Stmt{yc.Jump("N0")}}, &yc.Option{Line: yc.TextLine("on"), Body: []*yc.Stmt{yc.Jump("N2")}})}},
